@@ -346,6 +346,52 @@ def body_analytic(case, ctx):
                 ctx.close(got_r, ref[::-1], tol[::-1], f"{name}.{meth}", f"{name} {desc} {meth} on a re-filled array, r={rs[::-1]}:")
 
 
+def body_intdtype(case, ctx):
+    """Metamorphic: an int64 array of points (what np.arange / UniformInteger produce and the library itself feeds to
+    the b-scaled transforms) gives the same numbers as the same points in float64 - or is rejected loudly."""
+    desc = case["tf"]
+    name = _classify(case, ctx)
+    base = O.base_of(desc)
+    if base["cls"] == "HandyMod" and not O.handymod_admissible(base, 0.009):
+        ctx.skip("HandyMod with a pole in (-1,1]")
+        return
+    tf = O.build(desc)
+    lo, hi = (float(v) for v in tf.domain)
+    ints = sorted(set(k for k in case["ints"] if lo < k < hi))
+    if base["cls"] == "Hyperbolic":
+        ints = [k for k in ints if k * base["b"] < 0.999][: max(1, int(np.floor(0.999 / base["b"])))]
+    if not ints:
+        ctx.skip("no integer strictly inside the domain")
+        return
+    ctx.nt()
+    ctx.cls("int-dtype:" + case["dtype"])
+    xi = np.array(ints, dtype=np.int32 if case["dtype"] == "int32" else np.int64)
+    xf = np.array(ints, dtype=float)
+    if base["cls"] in O.BSCALED and base["b"] is None:
+        tf.transform(xf.copy())  # fixes b as documented
+    for meth in ("transform", "deriv", "deriv2", "deriv3"):
+        want = np.asarray(getattr(tf, meth)(xf.copy()), dtype=float)
+        try:
+            got = np.asarray(getattr(tf, meth)(xi.copy()), dtype=float)
+        except (ValueError, TypeError):
+            # a loud rejection of integer input (e.g. NumPy's "Integers to negative integer powers") is a clean
+            # refusal; what must not happen is a silently different number
+            ctx.cls("int-dtype:rejected-loudly")
+            continue
+        if got.shape != want.shape:
+            ctx.fail(f"{name}.{meth}:int-dtype", f"{meth} of an integer array has shape {got.shape}, of the same floats {want.shape}")
+            continue
+        both_bad = ~np.isfinite(want) & ~np.isfinite(got)
+        ctx.close(np.where(both_bad, 0.0, got), np.where(both_bad, 0.0, want), 1e-13 * (1.0 + np.abs(np.where(both_bad, 0.0, want))), f"{name}.{meth}:int-dtype",
+                  f"{name} {desc} {meth}({xi.tolist()} as {case['dtype']}) vs the same points as float64:")
+
+
+@st.composite
+def intdtype_strategy(draw):
+    case = draw(case_strategy())
+    return {"tf": case["tf"], "u": [], "ints": draw(st.lists(st.integers(-3, 40), min_size=1, max_size=6)) + [0, 1], "dtype": "int64"}
+
+
 def _track(ctx, got, ref, tol, what=""):
     """Remember the worst error/tolerance ratio of the case (read by the calibration script only)."""
     with np.errstate(invalid="ignore", divide="ignore"):
@@ -521,6 +567,7 @@ def subchecks(tier, seed):
     return [
         SubCheck("analytic", body_analytic, strategy=case_strategy(), examples=8000 if quick else 250000, shards=16 if quick else 32),
         SubCheck("endpoints", body_endpoints, strategy=case_strategy().map(_no_scalar), examples=3000 if quick else 40000, shards=16),
+        SubCheck("integer-dtype", body_intdtype, strategy=intdtype_strategy(), examples=1500 if quick else 20000, shards=16),
         SubCheck("pinned-analytic", body_analytic, cases=pinned_analytic(), shards=8),
         SubCheck("pinned-endpoints", body_endpoints, cases=pinned_endpoints(), shards=4),
     ]
